@@ -63,7 +63,7 @@ def run(ctx, chk):
     r_ab = chk.rule("C01.R7", "no abort site in the arithmetic helpers / actions can fail", floor=10)
     chk.rule("C01.R8", "byte and word helper of a mnemonic compute every flag from the same expression (no dropped operand)", floor=25)
     chk.rule("C01.R10", "an immediate operand has the width of its destination (every operand bit comes from the same bit of the literal)", floor=6)
-    chk.rule("C01.R12", "CF, AF, OF, SF, ZF are the manual's predicates over the operands (normal forms D>0 / D==0 / xor), for every operand", floor=20)
+    chk.rule("C01.R12", "CF, AF, OF, SF, ZF are the manual's predicates over the operands (normal forms D>0 / D==0 / xor) and PF is the even parity of the result's low byte, for every operand", floor=20)
     chk.rule("C01.R11", "the stored result is the arithmetic result modulo 2^width, for every operand value and incoming carry (affine closed form)", floor=10)
     chk.rule("C01.R9", "the zero test is made on the stored result (or on a wider value that cannot be a non-zero multiple of 2^width)", floor=8)
     sibling_rule(ctx, chk)
@@ -604,11 +604,17 @@ def _pred_show(q):
     return {"pos": "{} > 0", "zero": "{} == 0", "nonzero": "{} != 0"}[q[0]].format(q[1].pretty())
 
 
-def _canon_pred(q):
-    """`sx_w(X) < 0` is `X mod 2^w >= 2^(w-1)`: one spelling for the sign test"""
+def _canon_pred(q, ranges=None):
+    """`sx_w(X) < 0` is `X mod 2^w >= 2^(w-1)`; `D != 0` with D >= 0 is `D > 0`: one spelling each"""
     from domains import Lin
     if q[0] == "xor":
-        return ("xor",) + tuple(sorted((_canon_pred(q[1]), _canon_pred(q[2])), key=repr))
+        return ("xor",) + tuple(sorted((_canon_pred(q[1], ranges), _canon_pred(q[2], ranges)), key=repr))
+    if q[0] == "nonzero" and ranges is not None:
+        lo, hi = q[1].interval(ranges)
+        if lo >= 0:
+            return ("pos", q[1])
+        if hi <= 0:
+            return ("pos", q[1].scale(-1))
     if q[0] == "pos" and q[1].c == 0 and len(q[1].terms) == 1:
         b, k = q[1].terms[0]
         if k == -1 and not isinstance(b, str) and b[0] == "sx":
@@ -620,7 +626,7 @@ def _canon_pred(q):
 def _compare_preds(have, want, ranges):
     """'equal' | ('differ', env) | 'unknown' : both are exact predicates over the operand atoms"""
     import itertools
-    have, want = _canon_pred(have), _canon_pred(want)
+    have, want = _canon_pred(have, ranges), _canon_pred(want, ranges)
     if have == want or repr(have) == repr(want):
         return "equal"
     if have[0] == want[0] and have[0] in ("zero", "nonzero"):
@@ -713,6 +719,70 @@ def bool_flag_map(ctx, e):
                     out[bit] = (p, r.bits[bit])
     _FLAGMAP_CACHE[key] = out
     return out
+
+
+_PARITY_FN_CACHE = {}
+
+
+def is_parity_helper(ctx, g):
+    """does the local function g(u8) -> bool return `true iff its argument has an even number of 1 bits`?  Decided on the
+    bit domain, where xor-folds are exact linear forms over GF(2): the result bit must be the complement of the xor of the
+    eight argument bits."""
+    from absint import Interp, Unsupported as U_
+    from units import machine_state
+    from domains import bxform
+    if g["id"] in _PARITY_FN_CACHE:
+        return _PARITY_FN_CACHE[g["id"]]
+    ok = None
+    try:
+        if g["argc"] == 1 and (g["locals"][1]["ty"] or "") == "u8":
+            I = Interp(ctx.program)
+            st = machine_state(I, ctx.program)
+            r = I.run_fn(g, [I.new_atom("u8", "v")], st)
+            if r is not None and r.kind == "int" and r.ty == "bool":
+                xf = bxform(r.bits[0])
+                if xf is not None:
+                    ok = (xf == (frozenset(("v", i) for i in range(8)), 1))
+    except U_:
+        ok = None
+    _PARITY_FN_CACHE[g["id"]] = ok
+    return ok
+
+
+def parity_verdict(ctx, s, pf_bool, pol, want_val, ranges, result_value=None):
+    """PF <- even parity of the low byte of the result: the boolean that sets PF must come out of a call of a parity helper
+    (`is_parity_helper`) whose argument is, modulo 256, the result.  -> (verdict, text)"""
+    P = ctx.program
+    cands = []
+    for e in s.I.events:
+        if e.kind != "call" or not getattr(e, "fref", None) or not e.fref.get("local") or len(e.args) != 1:
+            continue
+        a0 = e.args[0]
+        if a0.kind == "int" and a0.vid in pf_bool.lineage:
+            g = P.fns.get(e.fref.get("id"))
+            if g is not None:
+                cands.append((e, g, a0))
+    if not cands:
+        return ("undecided", "the boolean that sets PF does not come out of a one-argument helper call")
+    e, g, a0 = cands[-1]
+    par = is_parity_helper(ctx, g)
+    if par is None:
+        return ("undecided", f"{g['name'].split('::')[-1]} is not recognised as a parity function on the bit domain")
+    if par is False or pol != 1:
+        return ("bad", f"PF is set from {g['name'].split('::')[-1]}, which does not return `even number of 1 bits` of its argument")
+    if result_value is not None and result_value.kind == "int" and a0.bits[:8] == result_value.bits[:8]:
+        return ("ok", "even parity of the low byte of the very value that is returned")
+    if a0.aff is None or want_val is None:
+        return ("undecided", "the argument of the parity helper has no closed form")
+    have, want = a0.aff.mod(256).simplify(ranges), want_val.mod(256).simplify(ranges)
+    from domains import lin_equal_witness
+    r = lin_equal_witness(have, want, ranges)
+    if r[0] == "equal":
+        return ("ok", f"even parity of {have.pretty()}")
+    if r[0] == "differ":
+        env = r[1]
+        return ("bad", f"PF is the parity of {have.pretty()}, not of the low byte of the result {want.pretty()}; e.g. " + ", ".join(f"{k}={v}" for k, v in sorted(env.items())))
+    return ("undecided", f"parity of {have.pretty()} not comparable with the result {want.pretty()}")
 
 
 def flag_predicate_rule(ctx, chk, unit, m, group, fn, width, where, written):
@@ -843,6 +913,11 @@ def flag_predicate_rule(ctx, chk, unit, m, group, fn, width, where, written):
             for bit, (path, pol) in bool_flag_map(ctx, e).items():
                 v = e.args[path[0]] if len(path) == 1 else e.args[path[0]].fields[path[1]]
                 decided[bit] = (v, pol)
+        if "PF" in written and FBIT["PF"] in decided:
+            pv, ppol = decided[FBIT["PF"]]
+            results["PF" + ("" if cv is None else f"[CF={cv}]")] = parity_verdict(ctx, s, pv, ppol, val, ranges)
+        elif "PF" in written:
+            results["PF" + ("" if cv is None else f"[CF={cv}]")] = ("undecided", "no boolean handed to a flag routine decides this flag")
         for f in ("CF", "AF", "OF", "SF", "ZF"):
             if f not in written or (f == "CF" and m in ("inc", "dec")):
                 continue
